@@ -888,6 +888,30 @@ def run_gaunt(ctx, w, K, n):
             ctx.fail('C03:MaxwellianFreeFreeGauntFactor:knot-not-reproduced', 'g_ff(u=%r, gamma2=%r) = %r, table %r' % (us[i], gs[j], got, tb[i, j]),
                      dict(u=float(us[i]), gamma2=float(gs[j]), z=z))
     ctx.count('S:maxwell-knots', n)
+    # S only: Bremsstrahlung with the shipped Gaunt factor, handed over by the provider, against the documented bin average
+    class AD(w.MockAD):
+        def free_free_gaunt_factor(self):
+            return M
+    pt, dr = w.Point3D(0, 0, 0), w.Vector3D(0, 1, 0)
+    for it in range(max(4, n // 40)):
+        comp = rnd_composition(w, rng, rng.choice([2, 9, 12]), 0, nmax=6)
+        ne, te = 10 ** rng.uniform(18, 20.5), 10 ** rng.uniform(0, 4)
+        mn = rng.uniform(200, 800)
+        mx, bins = mn + rng.uniform(5, 300), rng.choice([1, 3, 8])
+        m = w.cm.Bremsstrahlung(plasma=w.plasma(comp, ne, te), atomic_data=AD((1e-35, 0, 0, 0)))
+        sp = w.Spectrum(mn, mx, bins)
+        m.emission(pt, dr, sp)
+        zs, ns = [float(c) for (e, c, n_, t) in comp], [n_ for (e, c, n_, t) in comp]
+        f = lambda l: doc_brems(lambda z, t, l_: float(M(z, t, l_)), zs, ns, ne, te, l)
+        desc = dict(model='Bremsstrahlung', gaunt='MaxwellianFreeFreeGauntFactor via provider', ne=ne, te=te, window=(mn, mx, bins), composition=comp_desc(w, comp))
+        ctx.case(key=('brems-maxwell', it))
+        ctx.count('S:brems-real-gaunt')
+        for i in range(bins):
+            a, b = mn + i * (mx - mn) / bins, mn + (i + 1) * (mx - mn) / bins
+            want = bin_average(f, a, b)
+            if not close(float(sp.samples[i]), want, 1e-4, 1e-290):
+                ctx.fail('C03:Bremsstrahlung:bin-average-differs-from-hutchinson:real-gaunt', 'bin %d: %r, documented %r' % (i, float(sp.samples[i]), want), desc)
+                break
 
 
 def run_radfn(ctx, w, K, n):
@@ -943,7 +967,8 @@ def run_end_to_end(ctx, w, n):
         cases = [('ExcitationLine', w.cm.ExcitationLine(line), doc_line(par, 'exc', comp, ne, te, 9, 5, tr, 5), (wl - 3, wl + 3, 300)),
                  ('RecombinationLine', w.cm.RecombinationLine(line), doc_line(par, 'rec', comp, ne, te, 9, 5, tr, 6), (wl - 3, wl + 3, 300)),
                  ('ThermalCXLine', w.cm.ThermalCXLine(line), doc_cx(w, par, comp, ne, te, 9, 5, tr), (wl - 3, wl + 3, 300)),
-                 ('TotalRadiatedPower', w.cm.TotalRadiatedPower(w.elements[9], 5), None, (300.0, 700.0, 4))]
+                 ('TotalRadiatedPower', w.cm.TotalRadiatedPower(w.elements[9], 5), None, (300.0, 700.0, 4)),
+                 ('Bremsstrahlung', w.cm.Bremsstrahlung(gaunt_factor=w.Gaunt((1.25, 0.125, 0.0, 2.0 ** -11))), 'brems', (350.0, 750.0, 8))]
         for name, model, want, (mn, mx, bins) in cases:
             pl.models = [model]
             ray = w.Ray(origin=w.Point3D(L + 0.5, 0, 0), direction=w.Vector3D(-1, 0, 0), min_wavelength=mn, max_wavelength=mx, bins=bins)
@@ -951,9 +976,13 @@ def run_end_to_end(ctx, w, n):
             tot = float(spec.total())
             if want is None:
                 want = doc_trp(w, par, (1, 1, 1), comp, ne, te, mn, mx, 9, 5) * (mx - mn)
+            elif want == 'brems':
+                gf = lambda z, t, l: 1.25 + 0.125 * z + 2.0 ** -11 * l
+                f = lambda l: doc_brems(gf, [float(c_) for (_, c_, _, _) in comp], [n_ for (_, _, n_, _) in comp], ne, te, l)
+                want = bin_average(f, mn, mx) * (mx - mn)
             ctx.case(key=('slab', name, it))
             ctx.count('S:slab:' + name)
-            if not close(tot, want * L, 1e-6):
+            if not close(tot, want * L, 1e-4 if name == 'Bremsstrahlung' else 1e-6):
                 ctx.fail('C03:%s:ray-trace-through-slab' % name, 'Ray.trace total %r, documented emission x length %r' % (tot, want * L),
                          dict(model=name, length=L, ne=ne, te=te, rate_par=par, composition=comp_desc(w, comp)))
 
